@@ -150,8 +150,8 @@ Section Proofs.
     is_closed cs c = true -> is_closed (conn_step cs o) c = true.
   Proof.
     unfold is_closed. intro H.
-    destruct o as [c0 b|c0 mid r t|c0 r t| |c0]; simpl; try exact H.
-    - destruct (aget c0 cs) eqn:E; [exact H|]. rewrite aget_aset_dec.
+    destruct o as [c0 b sd|c0 mid r t|c0 r t| |c0]; simpl; try exact H.
+    - destruct (aget c0 cs) eqn:E; [exact H|]. destruct (sid_live cs sd); [exact H|]. rewrite aget_aset_dec.
       destruct (Z.eqb_spec c c0); [subst; rewrite E in H; discriminate | exact H].
     - destruct r as [ty m|k]; [|exact H]. destruct m; try exact H.
       destruct (Z.eqb ty front_type && is_open cs c0) eqn:G; [|exact H].
@@ -168,12 +168,12 @@ Section Proofs.
   Qed.
 
   Lemma conn_step_open_other cs o c :
-    (forall b, o <> OConnect c b) -> o <> OClose c ->
+    (forall b sd, o <> OConnect c b sd) -> o <> OClose c ->
     is_open (conn_step cs o) c = is_open cs c.
   Proof.
     intros N1 N2. unfold is_open.
-    destruct o as [c0 b|c0 mid r t|c0 r t| |c0]; simpl; try reflexivity.
-    - destruct (aget c0 cs) eqn:E; [reflexivity|]. rewrite aget_aset_dec.
+    destruct o as [c0 b sd|c0 mid r t|c0 r t| |c0]; simpl; try reflexivity.
+    - destruct (aget c0 cs) eqn:E; [reflexivity|]. destruct (sid_live cs sd); [reflexivity|]. rewrite aget_aset_dec.
       destruct (Z.eqb_spec c c0); [subst; exfalso; eapply N1; reflexivity | reflexivity].
     - destruct r as [ty m|k]; [|reflexivity]. destruct m; try reflexivity.
       destruct (Z.eqb ty front_type && is_open cs c0) eqn:G; [|reflexivity].
@@ -195,8 +195,8 @@ Section Proofs.
     rewrite cview_snoc, in_app_iff. intro H.
     destruct (is_closed (cview r) c) eqn:E; [left; auto|]. right. simpl. left.
     unfold is_closed in *.
-    destruct o as [c0 b|c0 mid rt t|c0 rt t| |c0]; simpl in H; try congruence.
-    - destruct (aget c0 (cview r)) eqn:G; [congruence|]. rewrite aget_aset_dec in H.
+    destruct o as [c0 b sd|c0 mid rt t|c0 rt t| |c0]; simpl in H; try congruence.
+    - destruct (aget c0 (cview r)) eqn:G; [congruence|]. destruct (sid_live (cview r) sd); [congruence|]. rewrite aget_aset_dec in H.
       destruct (Z.eqb_spec c c0); [simpl in H; discriminate | congruence].
     - destruct rt as [ty m|k]; [|congruence]. destruct m; try congruence.
       destruct (Z.eqb ty front_type && is_open (cview r) c0); [|congruence].
@@ -221,8 +221,8 @@ Section Proofs.
     destruct (aget c (conn_step (cview ops) o)) as [cn'|] eqn:G.
     - intro H. destruct (c_open cn'); [reflexivity | discriminate].
     - intros _. exfalso.
-      destruct o as [d b|d mid rt t|d rt t| |d]; simpl in G; try congruence.
-      + destruct (aget d (cview ops)); [congruence|]. rewrite aget_aset_dec in G.
+      destruct o as [d b sd|d mid rt t|d rt t| |d]; simpl in G; try congruence.
+      + destruct (aget d (cview ops)); [congruence|]. destruct (sid_live (cview ops) sd); [congruence|]. rewrite aget_aset_dec in G.
         destruct (Z.eqb c d); congruence.
       + destruct rt as [ty m|k]; [|congruence]. destruct m; try congruence.
         destruct (Z.eqb ty front_type && is_open (cview ops) d); [|congruence].
@@ -237,8 +237,8 @@ Section Proofs.
   Lemma conn_step_keeps cs o c : aget c cs <> None -> aget c (conn_step cs o) <> None.
   Proof.
     intro H.
-    destruct o as [d b|d mid rt t|d rt t| |d]; simpl; try exact H.
-    - destruct (aget d cs); [exact H|]. rewrite aget_aset_dec. destruct (Z.eqb c d); [discriminate | exact H].
+    destruct o as [d b sd|d mid rt t|d rt t| |d]; simpl; try exact H.
+    - destruct (aget d cs); [exact H|]. destruct (sid_live cs sd); [exact H|]. rewrite aget_aset_dec. destruct (Z.eqb c d); [discriminate | exact H].
     - destruct rt as [ty m|k]; [|exact H]. destruct m; try exact H.
       destruct (Z.eqb ty front_type && is_open cs d); [|exact H].
       rewrite aget_aset_dec. destruct (Z.eqb c d); [discriminate | exact H].
@@ -254,7 +254,7 @@ Section Proofs.
 
   Lemma op_recs_open cs o r : In r (op_recs cs o) -> is_open cs (r_c r) = true.
   Proof.
-    destruct o as [d b|d mid rt t|d rt t| |d]; simpl; try tauto;
+    destruct o as [d b sd|d mid rt t|d rt t| |d]; simpl; try tauto;
       destruct (is_open cs d) eqn:E; simpl; try tauto; intros [H|[]]; subst r; exact E.
   Qed.
 
@@ -284,7 +284,7 @@ Section Proofs.
     | PToBack => True
     | PSilent => f_wait f = true -> expected (fverdict f) (f_tag f) = Some (true, PNone)
     | PToFront c m e p =>
-        c = f_c f /\ m = f_mid f /\
+        c = f_sid f /\ m = f_mid f /\
         expected (fverdict f) (f_tag f) = Some (e, if e then PNone else p)
     | PDone => f_wait f = false
     end.
@@ -379,12 +379,12 @@ Section Proofs.
 
   (* replacing slot f by f' (same connection, id, tag, target, behaviour) *)
   Definition same_req (f f' : freq) : Prop :=
-    f_c f' = f_c f /\ f_mid f' = f_mid f /\ f_tag f' = f_tag f /\
+    f_c f' = f_c f /\ f_sid f' = f_sid f /\ f_mid f' = f_mid f /\ f_tag f' = f_tag f /\
     f_i f' = f_i f /\ f_ty f' = f_ty f /\ f_m f' = f_m f.
 
   Lemma same_req_frec f f' : same_req f f' -> frec f' = frec f.
   Proof.
-    intros [A [B [C [D [E F]]]]]. unfold frec, fverdict. rewrite A, B, C, D, E, F. reflexivity.
+    intros [A [_ [B [C [D [E F]]]]]]. unfold frec, fverdict. rewrite A, B, C, D, E, F. reflexivity.
   Qed.
 
   Lemma with_phase_same f ph w : same_req f (with_phase f ph w).
@@ -463,8 +463,8 @@ Section Proofs.
         { unfold fverdict. rewrite RT. reflexivity. }
         set (ph := if negb (Z.eqb (f_mid f) 0)
                    then match completes (f_m f) with
-                        | CReply => PToFront (f_c f) (f_mid f) false (PReply (f_i f) (f_tag f))
-                        | CErr => PToFront (f_c f) (f_mid f) true PNone
+                        | CReply => PToFront (f_sid f) (f_mid f) false (PReply (f_i f) (f_tag f))
+                        | CErr => PToFront (f_sid f) (f_mid f) true PNone
                         | CSilent => PSilent
                         end
                    else PDone).
@@ -547,9 +547,9 @@ Section Proofs.
     | _ => []
     end.
 
-  Definition new_fwd (v : verdict) (c mid tag ty : Z) : list freq :=
+  Definition new_fwd (v : verdict) (c sd mid tag ty : Z) : list freq :=
     match v with
-    | VForward i _ m => [mkF c mid tag i ty m PToBack (negb (Z.eqb mid 0))]
+    | VForward i _ m => [mkF c sd mid tag i ty m PToBack (negb (Z.eqb mid 0))]
     | _ => []
     end.
 
@@ -567,7 +567,7 @@ Section Proofs.
     is_open (conns s) c = true ->
     let v := verdict_of (key_of (conns s) c) r in
     request s c mid r tag =
-    mkSt (conns s) (fwd s ++ new_fwd v c mid tag (rtype r))
+    mkSt (conns s) (fwd s ++ new_fwd v c (sid_of (conns s) c) mid tag (rtype r))
          (out s ++ new_out v c mid tag) (hlog s ++ new_log v (negb (Z.eqb mid 0)) tag).
   Proof.
     intros O v. unfold v, request, Spec.verdict_of.
@@ -580,8 +580,8 @@ Section Proofs.
       + unfold write. destruct (Z.eqb mid 0); simpl; rewrite ?O, ?app_nil_r; destruct s; reflexivity.
   Qed.
 
-  Lemma new_fwd_frec v c mid tag r key f :
-    v = verdict_of key r -> In f (new_fwd v c mid tag (rtype r)) -> frec f = mkRec c mid tag v.
+  Lemma new_fwd_frec v c sd mid tag r key f :
+    v = verdict_of key r -> In f (new_fwd v c sd mid tag (rtype r)) -> frec f = mkRec c mid tag v.
   Proof.
     intros E H. subst v. unfold Spec.verdict_of in *.
     destruct (Z.eqb (rtype r) front_type); [simpl in H; tauto|].
@@ -602,7 +602,7 @@ Section Proofs.
     | _ => False
     end -> conn_step cs o = cs.
   Proof.
-    destruct o as [d b|d mid rt t|d rt t| |d]; try tauto; intro H; simpl;
+    destruct o as [d b sd|d mid rt t|d rt t| |d]; try tauto; intro H; simpl;
       (destruct rt as [ty m|k]; [|reflexivity]); destruct m; try reflexivity;
       rewrite H, andb_false_r; reflexivity.
   Qed.
@@ -617,7 +617,7 @@ Section Proofs.
     intro H. unfold Spec.verdict_of.
     destruct (Z.eqb (rtype r) front_type) eqn:T; [reflexivity|].
     assert (E : conn_step cs o = cs).
-    { destruct o as [d b|d mid rt t|d rt t| |d]; try tauto; destruct H as [H1 H2]; subst d rt; simpl;
+    { destruct o as [d b sd|d mid rt t|d rt t| |d]; try tauto; destruct H as [H1 H2]; subst d rt; simpl;
         (destruct r as [ty m|k]; [|reflexivity]); destruct m; try reflexivity;
         simpl in T; rewrite T; reflexivity. }
     rewrite E. reflexivity.
@@ -675,7 +675,7 @@ Section Proofs.
     - rewrite CS, cview_snoc. reflexivity.
     - intros f H. apply in_app_iff in H. destruct H as [H|H].
       + eapply fwd_ok_mono; [exact MONO|]. apply (inv_fwd _ _ I). exact H.
-      + assert (FE := new_fwd_frec v c mid tag r _ f eq_refl H).
+      + assert (FE := new_fwd_frec v c _ mid tag r _ f eq_refl H).
         unfold new_fwd in H. destruct v as [m| |i rt m]; simpl in H; try tauto.
         destruct H as [H|[]]. subst f. split; [rewrite FE; exact R0|]. split; simpl.
         * intro Q. destruct (Z.eqb_spec mid 0); [discriminate | assumption].
@@ -724,8 +724,8 @@ Section Proofs.
       + assert (NT : r_tag x <> tag).
         { intro E. apply FRESH. rewrite <- E. apply in_map. exact X. }
         assert (LO := inv_log _ _ I x X). unfold log_ok in LO.
-        assert (NB : ntoback (r_tag x) (fwd s ++ new_fwd v c mid tag (rtype r)) = ntoback (r_tag x) (fwd s)).
-        { rewrite ntoback_app. destruct v as [m| |i rt m]; simpl; [unfold ntoback; simpl; lia | unfold ntoback; simpl; lia |].
+        assert (NB : forall sd0, ntoback (r_tag x) (fwd s ++ new_fwd v c sd0 mid tag (rtype r)) = ntoback (r_tag x) (fwd s)).
+        { intro sd0. rewrite ntoback_app. destruct v as [m| |i rt m]; simpl; [unfold ntoback; simpl; lia | unfold ntoback; simpl; lia |].
           rewrite ntoback_cons. simpl. destruct (Z.eqb_spec tag (r_tag x)); [congruence|]. simpl. unfold ntoback. simpl. lia. }
         assert (NL : forall j, In (j, r_tag x) (hlog s ++ new_log v (negb (Z.eqb mid 0)) tag) -> In (j, r_tag x) (hlog s)).
         { intros j H. apply in_app_iff in H. destruct H as [H|H]; [exact H|].
@@ -835,7 +835,7 @@ Section Proofs.
     assert (ND0 : NoDup (map r_tag (ledger ops))).
     { apply ledger_tags_nodup. rewrite tags_of_app in ND. eapply NoDup_app_l; eauto. }
     assert (CS := inv_conns _ _ I).
-    destruct o as [c b|c mid r tag|c r tag| |c]; unfold Model.op_step.
+    destruct o as [c b sd|c mid r tag|c r tag| |c]; unfold Model.op_step.
     - apply inv_conn_only; [reflexivity | exact I].
     - rewrite CS. destruct (is_open (cview ops) c) eqn:O.
       + rewrite <- CS. apply inv_request; auto.
@@ -880,8 +880,8 @@ Section Proofs.
           with_phase f
             (if negb (Z.eqb (f_mid f) 0) then
                match completes (f_m f) with
-               | CReply => PToFront (f_c f) (f_mid f) false (PReply (f_i f) (f_tag f))
-               | CErr => PToFront (f_c f) (f_mid f) true PNone
+               | CReply => PToFront (f_sid f) (f_mid f) false (PReply (f_i f) (f_tag f))
+               | CErr => PToFront (f_sid f) (f_mid f) true PNone
                | CSilent => PSilent
                end
              else PDone) (f_wait f)
@@ -903,7 +903,7 @@ Section Proofs.
     - destruct (right_type (f_i f) (f_ty f)); [|reflexivity].
       destruct (invoked (f_m f) (negb (Z.eqb (f_mid f) 0))); reflexivity.
     - rewrite set_nth_same; [reflexivity | exact N].
-    - destruct (f_wait f && Z.eqb c' (f_c f) && Z.eqb mid' (f_mid f)); [|reflexivity].
+    - destruct (f_wait f && Z.eqb c' (f_sid f) && Z.eqb mid' (f_mid f)); [|reflexivity].
       unfold write. simpl. destruct (Z.eqb (f_mid f) 0); [reflexivity|].
       destruct (is_open (conns s) (f_c f)); reflexivity.
     - rewrite set_nth_same; [reflexivity | exact N].
@@ -1033,9 +1033,9 @@ Section Proofs.
   Lemma conn_step_open_keep cs o c :
     is_open cs c = true -> o <> OClose c -> is_open (conn_step cs o) c = true.
   Proof.
-    intros O N. destruct o as [d b|d mid rt t|d rt t| |d];
+    intros O N. destruct o as [d b sd|d mid rt t|d rt t| |d];
       try (rewrite conn_step_open_other; [exact O | intros; discriminate | exact N]).
-    simpl. destruct (aget d cs) eqn:G; [exact O|].
+    simpl. destruct (aget d cs) eqn:G; [exact O|]. destruct (sid_live cs sd); [exact O|].
     unfold is_open. rewrite aget_aset_dec. destruct (Z.eqb_spec c d); [reflexivity | exact O].
   Qed.
 
@@ -1235,7 +1235,7 @@ Section Proofs.
   Lemma deliver_out ops s k x :
     Inv ops s -> In x (out (deliver s k)) ->
     In x (out s) \/
-    exists f e p, In f (fwd s) /\ f_wait f = true /\ f_phase f = PToFront (f_c f) (f_mid f) e p /\
+    exists f e p, In f (fwd s) /\ f_wait f = true /\ f_phase f = PToFront (f_sid f) (f_mid f) e p /\
                   x = (f_c f, f_tag f, Resp (f_mid f) e (if e then PNone else p)).
   Proof.
     intros I H. unfold Model.deliver in H.
@@ -1313,7 +1313,7 @@ Section Proofs.
       assert (H' : (c1, t, Resp m e p) = (c, tag, Resp mid e1 p1)).
       { destruct v; simpl in H; try tauto; destruct H as [H|[]]; symmetry; exact H. }
       inv H'. split; [exact R0 | exact EX]. }
-    destruct o as [c b|c mid r tag|c r tag| |c]; unfold Model.op_step.
+    destruct o as [c b sd|c mid r tag|c r tag| |c]; unfold Model.op_step.
     - apply exact_mono. exact X.
     - destruct (is_open (conns s) c) eqn:O; [|apply exact_mono; exact X].
       apply REQ; [left; reflexivity | rewrite <- CS; exact O].
@@ -1398,7 +1398,7 @@ Section Proofs.
       - destruct (completes m); simpl in H; try tauto; destruct H as [H|[]]; subst x; exact O.
       - destruct H as [H|[]]; subst x; exact O. }
     destruct e as [o|k]; simpl.
-    - destruct o as [c b|c mid r tag|c r tag| |c]; unfold Model.op_step; try exact NIL.
+    - destruct o as [c b sd|c mid r tag|c r tag| |c]; unfold Model.op_step; try exact NIL.
       + destruct (is_open (conns s) c) eqn:O; [|exact NIL]. apply REQ; [exact O|].
         apply conn_step_open_keep; [exact O | discriminate].
       + destruct (is_open (conns s) c) eqn:O; [|exact NIL]. apply REQ; [exact O|].
@@ -1410,7 +1410,7 @@ Section Proofs.
       destruct (f_phase f) as [| |c' mid' e p|]; try exact NIL.
       + destruct (right_type (f_i f) (f_ty f)); [|exact NIL].
         destruct (invoked (f_m f) (negb (Z.eqb (f_mid f) 0))); exact NIL.
-      + destruct (f_wait f && Z.eqb c' (f_c f) && Z.eqb mid' (f_mid f)); [|exact NIL].
+      + destruct (f_wait f && Z.eqb c' (f_sid f) && Z.eqb mid' (f_mid f)); [|exact NIL].
         apply (write_grows (mkSt (conns s) (set_nth k (with_phase f PDone false) (fwd s)) (out s) (hlog s))).
   Qed.
 
@@ -1418,7 +1418,7 @@ Section Proofs.
   Proof.
     intro H. destruct e as [o|k]; simpl.
     - assert (G : is_closed (conn_step (conns s) o) c = true) by (apply conn_step_closed; exact H).
-      destruct o as [d b|d mid r tag|d r tag| |d]; unfold Model.op_step; try exact G; try exact H.
+      destruct o as [d b sd|d mid r tag|d r tag| |d]; unfold Model.op_step; try exact G; try exact H.
       + destruct (is_open (conns s) d) eqn:O; [|exact H]. rewrite request_effect; [exact G|].
         apply conn_step_open_keep; [exact O | discriminate].
       + destruct (is_open (conns s) d) eqn:O; [|exact H]. rewrite request_effect; [exact G|].
@@ -1427,7 +1427,7 @@ Section Proofs.
       destruct (f_phase f) as [| |c' mid' e p|]; try exact H.
       + destruct (right_type (f_i f) (f_ty f)); [|exact H].
         destruct (invoked (f_m f) (negb (Z.eqb (f_mid f) 0))); exact H.
-      + destruct (f_wait f && Z.eqb c' (f_c f) && Z.eqb mid' (f_mid f)); [|exact H].
+      + destruct (f_wait f && Z.eqb c' (f_sid f) && Z.eqb mid' (f_mid f)); [|exact H].
         unfold write. simpl. destruct (Z.eqb (f_mid f) 0); [exact H|].
         destruct (is_open (conns s) (f_c f)); exact H.
   Qed.
@@ -1492,4 +1492,31 @@ Section Proofs.
       + rewrite fold_left_app, ER, R. reflexivity.
       + rewrite R. apply quiet_after_passes.
   Qed.
+
+  (* ---------- a response only ever goes to the connection that sent the request ---------- *)
+
+  Lemma ledger_origin ops x :
+    In x (ledger ops) ->
+    exists pre o post, ops = pre ++ o :: post /\ In x (op_recs (cview pre) o).
+  Proof.
+    induction ops as [|o l IH] using rev_ind; [simpl; tauto|].
+    rewrite ledger_snoc, in_app_iff. intros [H|H].
+    - destruct (IH H) as [pre [o' [post [E X]]]]. exists pre, o', (post ++ [o]).
+      split; [rewrite E, <- app_assoc; reflexivity | exact X].
+    - exists l, o, []. split; [reflexivity | exact H].
+  Qed.
+
+  Theorem response_has_requester evs c1 t m e p :
+    NoDup (tags_of (ops_of evs)) ->
+    In (c1, t, Resp m e p) (out (run evs)) ->
+    exists pre post r, ops_of evs = pre ++ OReq c1 m r t :: post /\ accepted pre c1.
+  Proof.
+    intros ND H. destruct (inv_out _ _ (inv_run evs ND) _ _ _ _ _ H) as [NZ [v [R _]]].
+    destruct (ledger_origin _ _ R) as [pre [o [post [E X]]]].
+    destruct o as [c b sd|c mid r tag|c r tag| |c]; simpl in X; try tauto;
+      destruct (is_open (cview pre) c) eqn:O; simpl in X; try tauto; destruct X as [X|[]]; inv X.
+    - exists pre, post, r. split; [exact E | exact O].
+    - exfalso. apply NZ. reflexivity.
+  Qed.
+
 End Proofs.
